@@ -5,7 +5,7 @@ from props import coregen as G, corecheck as K, variants as V
 PID = 'C08'
 PROFILE = dict(named_cols=0.4, partial_args=0.3, inclusion=0.25, assign=0.6, lists=0.2, records=0.2, combine=0.25,
                disjunction=0.3, filter=0.4, negation=0.2, two_rules=0.3, distinct=0.25, aggregation=0.25,
-               ifthenelse=0.4, builtins=0.3, func_calls=0.5, share_names=0.5, set_agg=0.0)
+               ifthenelse=0.4, builtins=0.3, func_calls=0.5, share_names=0.5, table_funcs=0.5, dup_calls=0.5, set_agg=0.0)
 
 
 def run(tier, replay=None):
